@@ -1,5 +1,5 @@
 //! Types of the translated Rust subset and the tables built from the configuration.
-use std::collections::BTreeMap;
+use std::collections::{BTreeMap, BTreeSet};
 
 pub type R<T> = Result<T, String>;
 
@@ -243,11 +243,18 @@ pub struct FnInfo {
     pub mvars: Vec<String>,
     /// type parameters of the function, in order (to map a turbofish onto `assoc_params`)
     pub generic_names: Vec<String>,
+    /// the generic arguments of the impl's self type, as written (`RawDataIterator<'_, R, O>` -> ["'_", "R", "O"])
+    pub impl_args: Vec<String>,
     /// the (virtual) file of the definition
     pub file: String,
     pub ret: Ty,
     /// the body contains a loop (or calls a function that does): leading `fuel : nat` parameter, result in `option`
     pub fuel: bool,
+}
+
+/// the marker type of a `PhantomData<..>` field
+pub fn is_phantom(t: &Ty) -> bool {
+    matches!(t, Ty::Opaque(s) if s == "PhantomData")
 }
 
 impl FnInfo {
@@ -299,6 +306,8 @@ pub struct ExternInfo {
     pub coq_ty: String,
     /// method name -> (return type, Coq function applied to the receiver)
     pub methods: Vec<(String, Ty, String)>,
+    /// argument types of the methods that take arguments (`name(t1,t2):ret:coqfn`)
+    pub margs: BTreeMap<String, Vec<Ty>>,
     /// for an abstract type of a macro template: the macro parameter (a table row) every member is applied to first
     pub row: Option<String>,
     /// associated constants: name -> (type, Coq function)
@@ -307,11 +316,27 @@ pub struct ExternInfo {
     pub statics: Vec<(String, Vec<Ty>, Ty, String)>,
 }
 
+/// what a source file defines itself (to detect that a bare name in it cannot mean a configured item of another file)
+#[derive(Default, Clone, Debug)]
+pub struct FileDefs {
+    pub fns: BTreeSet<String>,
+    pub consts: BTreeSet<String>,
+    pub types: BTreeSet<String>,
+    /// inherent methods: (type identifier, method)
+    pub inherent: BTreeSet<(String, String)>,
+    /// `type Name = <ident>;` in the impls of a type: (type identifier, Name) -> the identifier (an integer type or a
+    /// generic parameter); None = several different ones / not a plain identifier
+    pub assoc_types: BTreeMap<(String, String), Option<String>>,
+}
+
 #[derive(Default)]
 pub struct Tables {
+    pub file_defs: BTreeMap<String, FileDefs>,
     pub externs: BTreeMap<String, ExternInfo>,
     /// macro parameters in declaration order
     pub mvars: Vec<MVar>,
+    /// `fuel <fn key> <coq nat>`: calls of this fuelled function pass this constant (the model's bound) instead of the caller's fuel
+    pub fuel_consts: BTreeMap<String, String>,
     /// type of an associated constant of a generic type parameter, by constant name
     pub assoc_tys: BTreeMap<String, Ty>,
     pub adts: BTreeMap<String, Adt>,
@@ -357,7 +382,61 @@ impl Tables {
     }
     /// the table entry a type name written in `cur_file` refers to.  Keys may carry a module qualifier
     /// (`rectangle.Points`, `line.Points`) when two Rust types share an identifier.
+    fn origin_file(&self, key: &str) -> String {
+        match self.adts.get(key) {
+            Some(Adt::Struct(s)) => s.origin.rsplit_once(':').map(|x| x.0.to_string()).unwrap_or_default(),
+            Some(Adt::Enum(e)) => e.origin.rsplit_once(':').map(|x| x.0.to_string()).unwrap_or_default(),
+            None => String::new(),
+        }
+    }
+
+    /// the file defines a type of this name itself, but the configured one comes from another file: not the same type
+    pub fn shadowed_type(&self, key: &str, cur_file: &str) -> bool {
+        let base = key.rsplit('.').next().unwrap().split('<').next().unwrap();
+        match self.file_defs.get(cur_file) {
+            Some(d) if d.types.contains(base) => {
+                let o = self.origin_file(key);
+                !o.is_empty() && o != cur_file && !o.contains("core::")
+            }
+            _ => false,
+        }
+    }
+
     pub fn resolve_name(&self, name: &str, cur_file: &str, self_ty: Option<&str>) -> Option<Ty> {
+        let r = self.resolve_name0(name, cur_file, self_ty);
+        if let Some(Ty::Adt(k)) = &r {
+            if self.shadowed_type(k, cur_file) {
+                return None;
+            }
+        }
+        r
+    }
+
+    /// `Self::Name` where the impls of the self type in this file say `type Name = <integer type>;`
+    pub fn assoc_int(&self, cur_file: &str, self_ty: Option<&str>, name: &str) -> Option<IntTy> {
+        match self.assoc_ty(cur_file, self_ty, name) {
+            Some(Ty::Int(Some(t))) => Some(t),
+            _ => None,
+        }
+    }
+
+    /// .. or `type Name = T;` for a generic parameter T that has a `tyvar` mapping
+    pub fn assoc_ty(&self, cur_file: &str, self_ty: Option<&str>, name: &str) -> Option<Ty> {
+        let base = self_ty?.rsplit('.').next().unwrap().split('<').next().unwrap().to_string();
+        match self.file_defs.get(cur_file)?.assoc_types.get(&(base, name.to_string())) {
+            Some(Some(t)) => match IntTy::from_name(t) {
+                Some(i) => Some(Ty::Int(Some(i))),
+                None if self.tyvars.contains_key(t) => Some(Ty::Param(t.clone())),
+                None => None,
+            },
+            _ => None,
+        }
+    }
+
+    fn resolve_name0(&self, name: &str, cur_file: &str, self_ty: Option<&str>) -> Option<Ty> {
+        if let Some(a) = name.strip_prefix("Self::") {
+            return self.assoc_ty(cur_file, self_ty, a);
+        }
         if self.adts.contains_key(name) {
             return Some(Ty::Adt(name.to_string()));
         }
